@@ -34,9 +34,9 @@ PROP_THOROUGH = [("MC_Versionbits_q6.cfg", 3), ("MC_Versionbits_q8p3.cfg", 3), (
 # (cfg, number of exported trees to replay)
 EXPORT_QUICK = [("MC_Versionbits_e6.cfg", 120)]
 SIMS_QUICK = [("MC_Versionbits_simA.cfg", 45, 70)]
-EXPORT_THOROUGH = [("MC_Versionbits_e7.cfg", 2000), ("MC_Versionbits_e7par.cfg", 1500), ("MC_Versionbits_e9c2.cfg", 1000),
-                   ("MC_Versionbits_e9p3.cfg", 1000)]
-SIMS_THOROUGH = [("MC_Versionbits_simA.cfg", 45, 400), ("MC_Versionbits_simB.cfg", 50, 400), ("MC_Versionbits_simC.cfg", 45, 200)]
+EXPORT_THOROUGH = [("MC_Versionbits_e6.cfg", 1000), ("MC_Versionbits_e7par.cfg", 1000), ("MC_Versionbits_e9c2.cfg", 600),
+                   ("MC_Versionbits_e9p3.cfg", 600)]     # MC_Versionbits_e7.cfg (124 k trees, lengths {1,2}) is kept for manual runs
+SIMS_THOROUGH = [("MC_Versionbits_simA.cfg", 45, 300), ("MC_Versionbits_simB.cfg", 50, 300), ("MC_Versionbits_simC.cfg", 45, 150)]
 # every one of these must have been observed on the real code (vacuity guard of the replay)
 NEED = ["defined->defined", "defined->started", "started->started", "started->locked_in", "started->failed",
         "locked_in->active", "active->active", "failed->failed", "threshold: count = needed", "threshold: count = needed-1",
